@@ -6,15 +6,18 @@
 (* over a small alphabet of values (one of every kind the normal form      *)
 (* distinguishes) and either continued bit.  Two families (Family):        *)
 (*   "chains"   one additive token of length 0..MaxTotal (the chain that   *)
-(*              buffer boundaries cut) between every possible left and     *)
-(*              right neighbour (or none);                                 *)
+(*              buffer boundaries cut) between every kind of left and      *)
+(*              right neighbour (none, the same value or another value,    *)
+(*              continued or not; FullContext = TRUE: every value); only   *)
+(*              the middle token is cut;                                   *)
 (*   "streams"  every stream of 1..MaxTokens tokens whose lengths sum to   *)
 (*              at most MaxTotal.                                          *)
 (* A buffer boundary may cut a token whose meaning is additive into up to  *)
 (* MaxPieces same-valued pieces (zero-length pieces included: std/json      *)
 (* closes a cut line comment with one).  TLC enumerates every logical       *)
-(* stream (as the successors of one initial state, so that the workers      *)
-(* share them) and, per stream, EVERY legitimate re-splitting, and checks   *)
+(* stream (in two steps - first token, then the rest - so that the workers  *)
+(* share the work) and, per stream, EVERY legitimate re-splitting, and      *)
+(* checks                                                                   *)
 (*   Invariant      Normalise(r) = Normalise(L) for every re-splitting r    *)
 (*   Idempotent     Normalise(Normalise(L)) = Normalise(L)                  *)
 (*   Canonical      no two neighbours of Normalise(L) are mergeable         *)
@@ -28,10 +31,12 @@
 (***************************************************************************)
 EXTENDS TokenStream
 
-CONSTANTS Family, MaxTokens, MaxTotal, MaxPieces
+CONSTANTS Family, MaxTokens, MaxTotal, MaxPieces, FullContext
 
-VARIABLE L
-vars == <<L>>
+VARIABLES L,        \* the logical stream (under construction while stage < 2)
+          stage,
+          mid       \* "chains": the index of the chain token in L (0 for "streams")
+vars == <<L, stage, mid>>
 
 \* one value of every kind the normal form tells apart: <<x, a, b>>
 VWhite   == <<0, 0, 0>>                         \* plain filler (white space)
@@ -41,6 +46,9 @@ VCodePt  == <<0, 0, 3 * 2097152 + 10>>          \* unicode code point U+000A
 VTag     == <<0, 731642, 4194304 + 5>>          \* a non-base (std/cbor) token
 VExt     == <<1, 1, 2>>                         \* an extended token
 Values == {VWhite, VComment, VCopy, VCodePt, VTag, VExt}
+\* the model's own statement of what a buffer boundary may cut (TokenStream!Additive must agree, or an invariant fails)
+Cuttable == {VWhite, VComment, VCopy}
+ValueOf(t) == <<t[1], t[2], t[3]>>
 
 Mk(v, c, n) == <<v[1], v[2], v[3], c, n>>
 
@@ -49,10 +57,10 @@ RECURSIVE SeqsExact(_, _)
 SeqsExact(k, budget) ==
     IF k = 0 THEN {<<>>}
     ELSE UNION { { <<Mk(v, c, n)>> \o r : v \in Values, c \in {0, 1}, r \in SeqsExact(k - 1, budget - n) } : n \in 0..budget }
-Neighbours == {<<>>} \cup { <<Mk(v, c, 1)>> : v \in Values, c \in {0, 1} }
-Streams == IF Family = "streams" THEN UNION { SeqsExact(k, MaxTotal) : k \in 1..MaxTokens }
-           ELSE { l \o <<Mk(v, c, n)>> \o r : l \in Neighbours, r \in Neighbours,
-                                                v \in {VWhite, VComment, VCopy}, c \in {0, 1}, n \in 0..MaxTotal }
+\* "chains": <<left neighbour or nothing, the chain token, right neighbour or nothing>>
+NeighbourValues(v) == IF FullContext THEN Values ELSE {v, VCodePt}
+Neighbours(v) == {<<>>} \cup { <<Mk(w, c, 1)>> : w \in NeighbourValues(v), c \in {0, 1} }
+ChainValues == Cuttable
 
 \* ---- legitimate cuts ---------------------------------------------------------------------
 RECURSIVE Compositions(_, _)
@@ -66,45 +74,58 @@ RECURSIVE BitSeqs(_, _)
 BitSeqs(k, bits) == IF k = 0 THEN {<<>>} ELSE { <<b>> \o r : b \in bits, r \in BitSeqs(k - 1, bits) }
 
 Cuts(t) ==
-    IF ~Additive(t) THEN {<<t>>}
+    IF ValueOf(t) \notin Cuttable THEN {<<t>>}
     ELSE UNION { { [i \in 1..k |-> <<t[1], t[2], t[3], IF i = k THEN TCon(t) ELSE cs[i], ls[i]>>]
-                   : ls \in Compositions(TLen(t), k), cs \in BitSeqs(k - 1, IF PlainFiller(t) THEN {0, 1} ELSE {1}) }
+                   : ls \in Compositions(TLen(t), k), cs \in BitSeqs(k - 1, IF ValueOf(t) = VWhite THEN {0, 1} ELSE {1}) }
                  : k \in 1..MaxPieces }
 
-RECURSIVE Resplits(_)
-Resplits(s) == IF Len(s) = 0 THEN {<<>>}
-               ELSE { c \o r : c \in Cuts(s[1]), r \in Resplits(Tail(s)) }
+RECURSIVE ResplitsAll(_)
+ResplitsAll(s) == IF Len(s) = 0 THEN {<<>>}
+                  ELSE { c \o r : c \in Cuts(s[1]), r \in ResplitsAll(Tail(s)) }
+\* "chains": only the chain token (index m) is cut
+Resplits(s, m) == IF Family = "streams" THEN ResplitsAll(s)
+                  ELSE { SubSeq(s, 1, m - 1) \o c \o SubSeq(s, m + 1, Len(s)) : c \in Cuts(s[m]) }
 
 \* ---- illegitimate changes -----------------------------------------------------------------
 \* applied to a stream that is its own normal form, each must be visible in the normal form
 ReplaceAt(s, i, piece) == SubSeq(s, 1, i - 1) \o piece \o SubSeq(s, i + 1, Len(s))
 IllegitimateSet(s) ==
     LET cutNonAdditive == UNION { { ReplaceAt(s, i, <<Mk(s[i], 1, n), Mk(s[i], TCon(s[i]), TLen(s[i]) - n)>>) : n \in 0..TLen(s[i]) }
-                                  : i \in { j \in 1..Len(s) : ~Additive(s[j]) } }
+                                  : i \in { j \in 1..Len(s) : ValueOf(s[j]) \notin Cuttable } }
         \* an additive token with a detail bit (not plain filler) cut in two WITHOUT the continued bit on the first piece
         cutNoCon == UNION { { ReplaceAt(s, i, <<Mk(s[i], 0, n), Mk(s[i], TCon(s[i]), TLen(s[i]) - n)>>) : n \in 0..TLen(s[i]) }
-                            : i \in { j \in 1..Len(s) : Additive(s[j]) /\ ~PlainFiller(s[j]) } }
+                            : i \in { j \in 1..Len(s) : ValueOf(s[j]) \in Cuttable \ {VWhite} } }
         \* a byte moved from one token to its right neighbour
         moved == { [s EXCEPT ![i] = Mk(s[i], TCon(s[i]), TLen(s[i]) - 1), ![i + 1] = Mk(s[i + 1], TCon(s[i + 1]), TLen(s[i + 1]) + 1)]
                    : i \in { j \in 1..(Len(s) - 1) : TLen(s[j]) >= 1 } }
         \* a continued bit flipped, a value replaced
         flipped == { [s EXCEPT ![i] = Mk(s[i], 1 - TCon(s[i]), TLen(s[i]))] : i \in 1..Len(s) }
-        revalued == UNION { { [s EXCEPT ![i] = Mk(v, TCon(s[i]), TLen(s[i]))] : v \in Values \ {<<s[i][1], s[i][2], s[i][3]>>} } : i \in 1..Len(s) }
+        revalued == UNION { { [s EXCEPT ![i] = Mk(v, TCon(s[i]), TLen(s[i]))] : v \in Values \ {ValueOf(s[i])} } : i \in 1..Len(s) }
     IN cutNonAdditive \cup cutNoCon \cup moved \cup flipped \cup revalued
 
 \* ---- the model ------------------------------------------------------------------------------
-Init == L = <<>>
-Next == L = <<>> /\ L' \in Streams
+Init == L = <<>> /\ stage = 0 /\ mid = 0
+\* step 1 fixes the first token (the chain token with its left neighbour for "chains"), step 2 the rest
+Step1 == /\ stage = 0 /\ stage' = 1
+         /\ IF Family = "streams"
+            THEN L' \in SeqsExact(1, MaxTotal)
+            ELSE L' \in UNION { { l \o <<Mk(v, c, n)>> : l \in Neighbours(v), c \in {0, 1}, n \in 0..MaxTotal } : v \in ChainValues }
+         /\ mid' = IF Family = "streams" THEN 0 ELSE Len(L')
+Step2 == /\ stage = 1 /\ stage' = 2 /\ mid' = mid
+         /\ IF Family = "streams"
+            THEN L' \in UNION { { L \o r : r \in SeqsExact(k, MaxTotal - TotalLen(L)) } : k \in 0..(MaxTokens - 1) }
+            ELSE L' \in { L \o r : r \in Neighbours(ValueOf(L[Len(L)])) }
+Next == Step1 \/ Step2
 Spec == Init /\ [][Next]_vars
 
 N == Normalise(L)
-Real == Len(L) > 0                      \* (the initial state is only the root of the enumeration)
+Real == stage = 2                       \* (earlier stages only build the stream)
 
 \* the normal form does not depend on where the buffer boundaries fell (left fold and divide-and-conquer form alike)
-Invariant == Real => \A r \in Resplits(L) : Normalise(r) = N /\ NormaliseDC(r) = N
+Invariant == Real => \A r \in Resplits(L, mid) : Normalise(r) = N /\ NormaliseDC(r) = N
 Idempotent == Real => Normalise(N) = N
 Canonical == Real => \A i \in 1..(Len(N) - 1) : ~Mergeable(N[i], N[i + 1])
-NonAdditive(t) == ~Additive(t)
+NonAdditive(t) == ValueOf(t) \notin Cuttable
 Conserves == Real => /\ TotalLen(N) = TotalLen(L)
                      /\ TCon(N[Len(N)]) = TCon(L[Len(L)])
                      /\ SelectSeq(N, NonAdditive) = SelectSeq(L, NonAdditive)
